@@ -273,7 +273,7 @@ func (r Rng) agwFrame() agwpe.VerifFrame {
 
 func runC13(ctx *Ctx) error {
 	r, res := ctx.Rng, ctx.Res
-	res.Rule = "(1) codec correspondence: random frames (all kinds, all ports, binary callsign fields, data 0..300 bytes) encoded by frame.WriteTo vs the model, and random streams (concatenated encodings, arbitrarily split into reads, optionally truncated mid-header / mid-data or followed by a header announcing up to 4 GiB) parsed by frame.ReadFrom vs the model's reader; the frame constructors and framesFilter.Want vs the model. (2) end-to-end against a scripted AGWPE TNC on an in-memory duplex link whose reads return at most 1..64 bytes (and, thorough, on loopback TCP with separate writes): RegisterPort, Dial (direct and via digipeaters) or Accept, TNC->host connected-data frames interleaved with frames for other ports, other stations and of other kinds, Read with random caller buffer sizes (1 byte up to larger than the frame) and reader delays, Write of random payloads, Flush, Close, Port.Close. Oracles written independently of the code: bytes returned by Read = concatenation of the connection's payloads in order (and = the model's conn_reads for the same buffer sizes); frames the TNC received for Write carry port, callsigns, PID 0xF0 and the written bytes in order; the exchange kinds g,X,(C|v),Y..,D..,Y..,d,x occur in that order; a refused dial, a wrong-length 'Y', a short 'g', a non-CONNECTED 'C', truncated streams and over-long headers produce errors, not crashes or hangs. Non-trivial: scenario moving at least one payload in each direction with a split inside a frame; distinct by scenario parameters."
+	res.Rule = "(1) codec correspondence: random frames (all kinds, all ports, binary callsign fields, data 0..300 bytes) encoded by frame.WriteTo vs the model, and random streams (concatenated encodings, arbitrarily split into reads, optionally truncated mid-header / mid-data or followed by a header announcing up to 4 GiB) parsed by frame.ReadFrom vs the model's reader; the frame constructors and framesFilter.Want vs the model. (2) end-to-end against a scripted AGWPE TNC on an in-memory duplex link whose reads return at most 1..64 bytes (and, thorough, on loopback TCP with separate writes): RegisterPort (the TNC reporting MAXFRAME 0, 1, 3, 7 or 255), Dial (direct and via digipeaters) or Accept, TNC->host connected-data frames interleaved with frames for other ports, other stations and of other kinds, Read with random caller buffer sizes (1 byte up to larger than the frame) and reader delays, Write of random payloads, Flush, Close, Port.Close. Oracles written independently of the code: bytes returned by Read = concatenation of the connection's payloads in order (and = the model's conn_reads for the same buffer sizes); frames the TNC received for Write carry port, callsigns, PID 0xF0 and the written bytes in order; the exchange kinds g,X,(C|v),Y..,D..,Y..,d,x occur in that order; a refused dial, a wrong-length 'Y', a short 'g', a non-CONNECTED 'C', truncated streams and over-long headers produce errors, not crashes or hangs. Non-trivial: scenario moving at least one payload in each direction with a split inside a frame; distinct by scenario parameters."
 	os.Setenv("AGWPE_DEBUG", "1")
 	dl := &dropLog{}
 	log.SetOutput(dl)
@@ -648,6 +648,8 @@ func (sc c13Scenario) run(r Rng) (fails []Failure, reads *c13Reads) {
 		hostConn = promptConn{hostConn}
 	}
 	sim := newAgwSim(tncConn)
+	// the MAXFRAME the TNC reports for the port: 0 (unknown to the TNC), 1, small, the usual 7, 255
+	sim.maxFrame = []byte{7, 0, 1, 7, 3, 255, 7}[((sc.id%7)+7)%7]
 	switch sc.fault {
 	case "refuse-dial":
 		sim.refuseDial = true
